@@ -6,8 +6,14 @@ from props.c12 import C12
 
 
 class C13(C12):
+    def program(self, case):
+        prog = super().program(case)
+        for j, (u, v, a, b) in enumerate(case['queries'][:2]):
+            prog.append(('trpsample', 0, u, v, a, b, 0.5, 17 + j))
+        return prog
+
     id = 'C13'
-    obs = {'trp', 'alltrp'}
+    obs = {'trp', 'alltrp', 'trpsample'}
     rule = ('temporal graphs as in C15 (exhaustive small universe + random); for every (u, v, window) with u present at start the result '
             'of time_respecting_paths must EQUAL the brute-force enumeration of all hop sequences satisfying C12\'s conditions over the '
             'has_interaction answers; empty when u has no interaction at start; all_time_respecting_paths(min_t) = union over the nodes '
@@ -43,6 +49,9 @@ class C13(C12):
                     if missing and not extra and all(p[0][0] == p[0][1] for p in missing):
                         trig = 'root_selfloop_first_hop'
                     fails.append(dict(index=i, op=list(op), what='missing %r extra %r' % (missing[:3], extra[:3]), trigger=trig))
+            elif op[0] == 'trpsample':
+                if r != 'subset-ok':
+                    fails.append(dict(index=i, op=list(op), what='sample < 1: %s' % (r,)))
             elif op[0] == 'alltrp':
                 if isinstance(r, str):
                     continue
